@@ -133,6 +133,12 @@ impl Run {
         let st = wst(&self.a.verif_state());
         self.stats.writes += 1;
         let (res, acc, kind) = match r {
+            // self-test fault: behave like a socket that returns the requested instead of the accepted length
+            Ok(Poll::Ready(Ok(n))) if self.fault == "write_req" && n < req => {
+                self.sent += req;
+                self.fl = false;
+                ("ok", req, String::new())
+            }
             Ok(Poll::Ready(Ok(n))) => {
                 self.sent += n;
                 if n > 0 {
